@@ -4,6 +4,8 @@ package verifx
 
 import (
 	"fmt"
+	"os"
+	"path/filepath"
 	"strconv"
 	"strings"
 )
@@ -15,6 +17,7 @@ type c12Case struct {
 	Profile string   `json:"profile"`
 	Graph   string   `json:"graph"`
 	Names   []string `json:"names"`
+	Seq     []int    `json:"seq,omitempty"` // src cli: documents written one after the other to the same output file (-1 = junk longer than any report first)
 }
 
 // graphFan: four layers for deep sub-result nesting. L3 leaves (class T3) with
@@ -104,7 +107,7 @@ func namedGraph(name string) (*Graph, string) {
 func init() {
 	Register(Meta{
 		ID: "C12", Level: "exploration",
-		Rule:        "every report produced by: C01 propositional formulas (size<=1) on the truth-table graph, the C01 quantifier and depth families, C02 paths (<=2 leaves) on the collision suite, a level-mix family (multi-branch formulas in all three levels at once on the 16-node truth table, >=11 results per level), nested chains of depth 1..3 with sibling quantifiers on a 4-layer fan graph (several sub-results per trace, several traces per result), and the C14 lexical documents. Each report is walked completely by an oracle written from the statement (JSON, one instance, one report node, every typed node has an @id, all @ids pairwise distinct, focus nodes grounded in the input, validation names defined, non-empty message/trace, trace entries complete). Non-trivial = report with at least one result; distinct by report text.",
+		Rule:        "every report produced by: C01 propositional formulas (size<=1) on the truth-table graph, the C01 quantifier and depth families, C02 paths (<=2 leaves) on the collision suite, a level-mix family (multi-branch formulas in all three levels at once on the 16-node truth table, >=11 results per level), nested chains of depth 1..3 with sibling quantifiers on a 4-layer fan graph (several sub-results per trace, several traces per result), the C14 lexical documents, and the command line tool (every sequence of 2 [thorough: 3] long/short/conforming reports written to one output file, from an absent file and over longer junk, plus what it prints without an output path). Each report is walked completely by an oracle written from the statement (JSON, one instance, one report node, every typed node has an @id, all @ids pairwise distinct, focus nodes grounded in the input, validation names defined, non-empty message/trace, trace entries complete). Non-trivial = report with at least one result; distinct by report text.",
 		Assumptions: []string{"node table of the input taken from the abstract graph the document was rendered from"},
 	}, c12Gen, c12Run)
 }
@@ -240,6 +243,27 @@ func c12Gen(tier string, emit func(c12Case)) {
 			}
 		}
 	}
+	// the command line tool: every sequence of one to three reports (long / short / conforming) written to the same
+	// output file, from an absent file and over longer junk; what the file holds after each run is a report
+	{
+		p, names := c12ProfileFor("ex.T", multi[0:3], []string{"violation", "warning", "info"})
+		for _, first := range []int{0, -1} {
+			for a := 0; a < 3; a++ {
+				for b := 0; b < 3; b++ {
+					var pre []int
+					if first == -1 {
+						pre = []int{-1}
+					}
+					emit(c12Case{Src: "cli", Profile: p, Names: names, Seq: append(append([]int{}, pre...), a, b)})
+					if tier == "thorough" {
+						for d := 0; d < 3; d++ {
+							emit(c12Case{Src: "cli", Profile: p, Names: names, Seq: append(append([]int{}, pre...), a, b, d)})
+						}
+					}
+				}
+			}
+		}
+	}
 	// lexical documents (locations as typed nodes inside results and traces)
 	for _, name := range c14DocNames(tier) {
 		emit(c12Case{Src: "lexical", Profile: c14Profile(), Graph: name, Names: c14Names()})
@@ -248,7 +272,85 @@ func c12Gen(tier string, emit func(c12Case)) {
 
 var c12Prev, c12PrevClone, c12PrevWhat string
 
+// c12RunCLI: the reports `acv validate P D OUT` leaves in OUT (and prints without OUT) are well-formed too.
+func c12RunCLI(c *Ctx, cs c12Case) {
+	acv := os.Getenv("VERIF_ACV")
+	if acv == "" {
+		panic("harness: VERIF_ACV not set (C12 family cli needs the built command line tool)")
+	}
+	dir, err := os.MkdirTemp(os.Getenv("VERIF_WORK"), "c12cli")
+	if err != nil {
+		panic("harness: " + err.Error())
+	}
+	defer os.RemoveAll(dir)
+	conf := &Graph{}
+	conf.Add(nid(0), EX+"U").P(EX+"p1", "v")
+	one := &Graph{}
+	one.Add(nid(0), EX+"T").P(EX+"p1", "v").P(EX+"p2", "v").P(EX+"p3", "v").P(EX+"p4", "v")
+	one.Add(nid(1), EX+"T")
+	graphs := []*Graph{TruthTableGraph(4, false), one, conf}
+	gnames := []string{"long", "short", "conforming"}
+	os.WriteFile(filepath.Join(dir, "p.yaml"), []byte(cs.Profile), 0o644)
+	for i, g := range graphs {
+		os.WriteFile(filepath.Join(dir, fmt.Sprintf("d%d.jsonld", i)), []byte(g.FlatJSONLD()), 0o644)
+	}
+	out := filepath.Join(dir, "out.json")
+	names := map[string]bool{}
+	for _, n := range cs.Names {
+		names[n] = true
+	}
+	hist := []string{}
+	for _, d := range cs.Seq {
+		if d < 0 {
+			os.WriteFile(out, []byte(strings.Repeat("junk that is not a report\n", 40000)), 0o644)
+			hist = append(hist, "junk")
+			continue
+		}
+		hist = append(hist, gnames[d])
+		r := c18Exec(dir, "validate", "p.yaml", fmt.Sprintf("d%d.jsonld", d), "out.json")
+		c.Eval(1)
+		if r.exit != 0 {
+			c.Violate("C12 the command line tool fails on a valid profile and document [cli]", fmt.Sprintf("history %v exit=%d\n%s", hist, r.exit, tailStr(r.stdout, 500)), nil)
+			return
+		}
+		b, err := os.ReadFile(out)
+		if err != nil {
+			c.Violate("C12 the command line tool leaves no output file [cli]", fmt.Sprintf("history %v: %v", hist, err), nil)
+			return
+		}
+		ids := map[string]bool{}
+		for _, n := range graphs[d].Nodes {
+			ids[n.ID] = true
+		}
+		seen := map[string]bool{}
+		for _, p := range CheckReportWellFormed(string(b), ids, names) {
+			cl := probClass(p)
+			if !seen[cl] {
+				seen[cl] = true
+				c.Violate("C12 "+cl+" [cli output file]", fmt.Sprintf("output file after the runs %v\n%s\nfile (%d bytes) starts:\n%s", hist, p, len(b), tailStr(string(b), 1500)), nil)
+			}
+		}
+		// and what it prints without an output path
+		r2 := c18Exec(dir, "validate", "p.yaml", fmt.Sprintf("d%d.jsonld", d))
+		c.Eval(1)
+		for _, p := range CheckReportWellFormed(strings.TrimSuffix(r2.stdout, "\n"), ids, names) {
+			cl := probClass(p)
+			if !seen[cl] {
+				seen[cl] = true
+				c.Violate("C12 "+cl+" [cli stdout]", fmt.Sprintf("stdout of validate on the %s document\n%s\n%s", gnames[d], p, tailStr(r2.stdout, 1500)), nil)
+			}
+		}
+		c.Outcome("cli " + gnames[d])
+	}
+	c.Nontrivial("cli " + strings.Join(hist, ">"))
+	c.Sample(map[string]any{"src": "cli", "history": hist})
+}
+
 func c12Run(c *Ctx, cs c12Case) {
+	if cs.Src == "cli" {
+		c12RunCLI(c, cs)
+		return
+	}
 	g, data := namedGraph(cs.Graph)
 	res := Validate(cs.Profile, data)
 	c.Eval(1)
